@@ -120,15 +120,22 @@ def replay(chk, case):
     return out
 
 
-def long_history(acc, ops, chk, scratch, kind_name="seq", passes=("forward", "forward", "reverse")):
-    """ONE long sequence: all operations in order, once more in order, then in reverse order (a bounded memo / ring / LRU
-    has been filled and wrapped several times by then).  Each operation is judged by its single-case oracle.  A violation
+def long_history(acc, ops, chk, scratch, kind_name="seq", passes=("forward", "forward", "reverse", "echo")):
+    """ONE long sequence: all operations in order, once more in order, in reverse order, then the "echo" pass (a bounded memo /
+    ring / LRU has been filled and wrapped several times by then).  Each operation is judged by its single-case oracle.  A violation
     of an operation that is correct on a fresh process image is reported with the executed prefix as its replay.  Cost is
     linear in the number of operations (one forked child for the sequence, one per violating operation to test it alone)."""
     order = []
     for p in passes:
         idx = list(range(len(ops)))
-        order += idx if p == "forward" else idx[::-1]
+        if p == "echo":
+            # every operation again right after itself and once more after its successor (i, i, i+1, i, ...): a memo that mishandles
+            # the SECOND presentation of an input (a rejected string remembered, a slot re-keyed before the work is done) needs the
+            # repeat to come before the entry is evicted - the other passes repeat an operation only after all the others
+            for i in idx:
+                order += [i, i, (i + 1) % len(ops), i]
+        else:
+            order += idx if p == "forward" else idx[::-1]
     path = os.path.join(scratch, f"long-{os.getpid()}.jsonl")
     fd = os.open(path, os.O_WRONLY | os.O_CREAT | os.O_TRUNC | os.O_APPEND, 0o600)
     pid = os.fork()
